@@ -219,7 +219,7 @@ def attach(model):
 
     def pre():
         rec.cur = dict(pre=rec.state(), evals=0, dtmin=float(rec.solver._dtmin), dtmax=float(rec.solver._dtmax),
-                       tf=float(m.finalTime), post_ans=None, upd=[None] * rec.P, dtProp=None, raised=None)
+                       tf=float(m.finalTime), post_ans=None, eval_ans=[], upd=[None] * rec.P, dtProp=None, raised=None)
         return o_pre()
     m.preProcess = pre
 
@@ -228,7 +228,8 @@ def attach(model):
         if m._currY is not None:
             rec.ctx = rec.new_eval()
             rec.ctx['T'] = float(m.temperatureParameters(t))
-            rec.cur['post_ans'] = rec.ctx
+            rec.cur['post_ans'] = rec.ctx          # the last evaluation of a step is the one inside postProcess
+            rec.cur['eval_ans'].append(rec.ctx)
             rec.cur['xNew'] = [_cp(x[p]) for p in range(rec.P)]
         try:
             return o_dep(t, x)
@@ -425,8 +426,10 @@ def enc_step(cfg, st, rec):
     E = cfg['nElem']
     blank = dict(table=[], xaNew=[], xbNew=[], regrow=rec.new_eval())
     upd = [u if u is not None else blank for u in st['upd']]
-    s = ['kwn.estep', enc_cfg(cfg), enc_state(st['pre'], E), f2b(st['tf']), f2b(st['dtmin']), f2b(st['dtmax']), enc_eval(st['post_ans'], E),
-         str(len(upd))]
+    evs = st['eval_ans']
+    s = ['kwn.estep' if len(evs) == 1 else 'kwn.rstep', enc_cfg(cfg), enc_state(st['pre'], E), f2b(st['tf']), f2b(st['dtmin']), f2b(st['dtmax'])]
+    s += [enc_eval(a, E) for a in evs]
+    s += [str(len(upd))]
     for u in upd:
         s += [enc_table(u['table']), enc_list(u['xaNew']), enc_list(u['xbNew']), enc_eval(u['regrow'], E)]
     return ' '.join(s)
@@ -524,7 +527,7 @@ def refine(prop, rec, cfg=None, max_report=3):
     """replay every captured step through the composed Lean model; returns (n_steps, list of (step index, diffs), stats)"""
     cfg = cfg or config(rec.m)
     E = cfg['nElem']
-    steps = [s for s in rec.steps if s.get('post') is not None and s['evals'] == 2 and s['post_ans'] is not None]
+    steps = [s for s in rec.steps if s.get('post') is not None and s['evals'] in (2, 5) and len(s['eval_ans']) == s['evals'] - 1]
     lines = [enc_step(cfg, s, rec) for s in steps]
     answers = vlib.run_driver(prop, lines)
     bad = []
@@ -600,6 +603,7 @@ def ensure_driver():
 
 
 def scenario(name, rng):
+    name = name.split('@')[0]
     """(model, simulated time, step cap) — real kawin models on the shipped databases"""
     import kwnruns
     small = dict(bins=40, minBins=30, maxBins=60, cMax=1.5e-9)
@@ -661,7 +665,7 @@ def _one(ctx, res, prop, name, cap, observer):
     rec = attach(m)
     try:
         try:
-            kwnruns.run(m, simt, solver='euler', max_steps=cap, observer=observer)
+            kwnruns.run(m, simt, solver='rk4' if name.endswith('@rk4') else 'euler', max_steps=cap, observer=observer)
         except kwnruns.StopRun:
             pass
         cfg = config(m)
